@@ -280,7 +280,7 @@ def _sub(e, base, idx):
 
 
 PRELUDE = """From Coq Require Import List Arith Bool Reals Lra Lia Psatz.
-From TLV Require Import Base.Ops Base.PyList Base.Tensor Base.RSum Model.Nnls Proofs.NnlsProofs Proofs.NnlsProofsFista.
+From TLV Require Import Base.Ops Base.PyList Base.Tensor Base.RSum Model.Nnls Model.NnlsAdmm Proofs.NnlsProofs Proofs.NnlsProofsFista.
 Import ListNotations.
 Open Scope R_scope.
 """
@@ -767,6 +767,153 @@ def tie_aset_tests(tree):
             "Proof. intros solve rnd Utm UtU iter0 x g p a add p1 a1 _ s1 H. unfold as_body. fold add. fold p1. fold a1. rewrite H. reflexivity. Qed.\n")
 
 
+def tie_fista_momentum(tree):
+    """fista: `momentum_old = 1.0` before the loop, `momentum = (1 + sqrt(1 + 4 * momentum_old**2)) / 2` and `momentum_old = momentum` (after
+    the extrapolation) inside: the recurrence the model computes (Model/NnlsMomentum.v momentum_next / fista_betas); sqrt is R's sqrt"""
+    fn, lp = _fista_body(tree)
+    init = [s for s in fn.body if isinstance(s, ast.Assign) and isinstance(s.targets[0], ast.Name) and s.targets[0].id == "momentum_old"]
+    if len(init) != 1 or _num(init[0].value) != "1" or fn.body.index(init[0]) > fn.body.index(lp):
+        raise Untranslatable("`momentum_old = 1.0` once, before the loop")
+    mom = [s for s in lp.body if isinstance(s, ast.Assign) and isinstance(s.targets[0], ast.Name) and s.targets[0].id == "momentum"]
+    old = [s for s in lp.body if isinstance(s, ast.Assign) and isinstance(s.targets[0], ast.Name) and s.targets[0].id == "momentum_old"]
+    upd = [s for s in lp.body if isinstance(s, ast.Assign) and isinstance(s.targets[0], ast.Name) and s.targets[0].id == "x_update"]
+    if len(mom) != 1 or len(old) != 1 or len(upd) != 1 or not (isinstance(old[0].value, ast.Name) and old[0].value.id == "momentum"):
+        raise Untranslatable("`momentum = ...`, `x_update = ...`, `momentum_old = momentum` once each in the loop")
+    if not lp.body.index(mom[0]) < lp.body.index(upd[0]) < lp.body.index(old[0]):
+        raise Untranslatable("order momentum / x_update / momentum_old = momentum")
+    sq = []
+
+    def tr(e):
+        c = _num(e)
+        if c is not None:
+            return c
+        if isinstance(e, ast.Name) and e.id == "momentum_old":
+            return "mo"
+        if isinstance(e, ast.BinOp) and isinstance(e.op, ast.Pow) and _num(e.right) == "2":
+            a = tr(e.left); return f"({a} * {a})"
+        if isinstance(e, ast.BinOp):
+            op = {ast.Add: "+", ast.Sub: "-", ast.Mult: "*", ast.Div: "/"}.get(type(e.op))
+            if op is None:
+                raise Untranslatable("operator in the momentum formula")
+            return f"({tr(e.left)} {op} {tr(e.right)})"
+        if isinstance(e, ast.Call) and ((isinstance(e.func, ast.Name) and e.func.id == "sqrt") or _callname(e) == "sqrt") and len(e.args) == 1 and not e.keywords:
+            a = tr(e.args[0]); sq.append(a); return f"(sqrt {a})"
+        raise Untranslatable("momentum formula: " + ast.dump(e)[:80])
+    t = tr(mom[0].value)
+    if len(sq) != 1:
+        raise Untranslatable("momentum formula without exactly one sqrt")
+    return ("From TLV Require Import Model.NnlsMomentum.\n"
+            f"Goal forall mo : R, {t} = momentum_next Rops sqrt mo.\n"
+            "Proof. intros. unfold momentum_next, four, two. cbn [fadd fmul fdiv f1 Rops].\n"
+            f"  replace {sq[0]} with (1 + (1 + 1 + (1 + 1)) * (mo * mo)) by ring. field. Qed.\n"
+            "(* momentum_old = 1.0; one coefficient (momentum_old - 1) / momentum per iteration; momentum_old = momentum *)\n"
+            "Goal forall K : nat, fista_betas Rops sqrt (S K) = (1 - 1) / momentum_next Rops sqrt 1 :: momentum_betas Rops sqrt (momentum_next Rops sqrt 1) K.\n"
+            "Proof. intros. reflexivity. Qed.\n")
+
+
+def tie_admm_loop(tree):
+    """admm, n_const not None: the loop body and the stopping rule, ENTRYWISE.  The loop body is executed symbolically (Entry: temporaries,
+    re-association and other ring-equal rewrites pass); tl.solve's answer and proximal_operator's answer are atoms (matrices xs, xn of the
+    right shape); coqc proves that the entries of: the two arguments of tl.solve, the argument of proximal_operator, the new dual variable,
+    and the four matrices inside the two norm tests are the entries of the model's terms (Proofs/NnlsProofsAdmmLoop.v admm_body_struct,
+    admm_stop_struct and the *_entry lemmas).  Structure matched as a pattern: `for iteration in range(n_iter_max)`, the early return of
+    the n_const=None branch, `if <norm test> and <norm test>: break` as the last statement, `return x, x_split, dual_var` after the loop."""
+    fn = _func(tree, "admm")
+    rho = [s for s in fn.body if isinstance(s, ast.Assign) and isinstance(s.targets[0], ast.Name) and s.targets[0].id == "rho"]
+    lp = _for_over(fn.body, "iteration")
+    ok = isinstance(lp.iter, ast.Call) and isinstance(lp.iter.func, ast.Name) and lp.iter.func.id == "range" and len(lp.iter.args) == 1 \
+        and isinstance(lp.iter.args[0], ast.Name) and lp.iter.args[0].id == "n_iter_max" and not lp.orelse
+    if not ok or len(rho) != 1 or fn.body.index(rho[0]) > fn.body.index(lp):
+        raise Untranslatable("`rho = ...` once, before `for iteration in range(n_iter_max):`")
+    def is_ret(s_):
+        return isinstance(s_, ast.Return) and isinstance(s_.value, ast.Tuple) and [getattr(e, "id", None) for e in s_.value.elts] == ["x", "x_split", "dual_var"]
+    if fn.body[-1] is lp or fn.body[fn.body.index(lp) + 1] is not fn.body[-1] or not is_ret(fn.body[-1]):
+        raise Untranslatable("`return x, x_split, dual_var` directly after the loop")
+    rec = {}
+    DIM = {"x": ("m", "r"), "dual_var": ("m", "r"), "UtM": ("m", "r"), "UtU": ("r", "r"), "x_old": ("m", "r")}
+
+    def special(e, E):
+        if isinstance(e, ast.Subscript) and isinstance(e.value, ast.Call) and _callname(e.value) == "shape" and len(e.value.args) == 1 \
+                and isinstance(e.value.args[0], ast.Name) and e.value.args[0].id in DIM and _num(e.slice) in ("0", "1"):
+            d = DIM[e.value.args[0].id][int(_num(e.slice))]
+            return lambda i, j: f"(nat2F Rops {d})"
+        if not isinstance(e, ast.Call):
+            return None
+        nm = _callname(e)
+        if nm == "transpose" and len(e.args) == 1:
+            f = E.expr(e.args[0]); return lambda i, j: f(j, i)
+        if nm == "eye":
+            return lambda i, j: f"(if Nat.eqb {i} {j} then 1 else 0)"
+        if nm == "trace" and len(e.args) == 1 and isinstance(e.args[0], ast.Name) and e.args[0].id == "UtU":
+            return lambda i, j: "(mtrace Rops UtU)"
+        if nm == "solve" and len(e.args) == 2:
+            if "solve" in rec:
+                raise Untranslatable("more than one tl.solve in the loop body")
+            rec["solve"] = (E.expr(e.args[0]), E.expr(e.args[1]))
+            return lambda i, j: f"(Mget xs {i} {j})"
+        if isinstance(e.func, ast.Name) and e.func.id == "proximal_operator":
+            kws = {k.arg: k.value for k in e.keywords}
+            if len(e.args) != 1 or any(not (isinstance(v, ast.Name) and v.id == k) for k, v in kws.items()) \
+                    or not {"n_const", "order", "non_negative", "l1_reg", "l2_square_reg"} <= set(kws) or "prox" in rec:
+                raise Untranslatable("proximal_operator(one positional argument, every keyword passed through unchanged), once")
+            rec["prox"] = E.expr(e.args[0])
+            return lambda i, j: f"(Mget xn {i} {j})"
+        return None
+
+    E = Entry({k: (lambda nm_: (lambda i, j: f"(Mget {nm_} {i} {j})"))({"dual_var": "dual"}.get(k, k)) for k in ("x", "dual_var", "UtM", "UtU")},
+              {"n_const": True}, special)
+    E.run([rho[0]], lambda s_, E_: None)
+    body = list(lp.body)
+    last = body[-1]
+    if not (isinstance(last, ast.If) and len(last.body) == 1 and isinstance(last.body[0], ast.Break) and not last.orelse
+            and isinstance(last.test, ast.BoolOp) and isinstance(last.test.op, ast.And) and len(last.test.values) == 2):
+        raise Untranslatable("`if ... and ...: break` as the last statement of the loop")
+    none_ifs = [s_ for s_ in body[:-1] if isinstance(s_, ast.If)]
+    if len(none_ifs) != 1 or _is_none_test(none_ifs[0].test) != ("n_const", True) or none_ifs[0].orelse or not is_ret(none_ifs[0].body[-1]):
+        raise Untranslatable("`if n_const is None: ...; return x, x_split, dual_var` (the only other `if` of the loop)")
+    E.run(body[:-1], lambda s_, E_: None)        # the n_const=None branch is not taken (given: n_const is not None)
+    if "solve" not in rec or "prox" not in rec:
+        raise Untranslatable("tl.solve / proximal_operator not found in the loop body")
+    if E.env["x_split"]("i", "c") != "(Mget xs i c)" or E.env["x"]("c", "i") != "(Mget xn c i)":
+        raise Untranslatable("x_split is not the answer of tl.solve / x is not the answer of proximal_operator at the end of the body")
+
+    def norm_test(c):
+        ok_ = isinstance(c, ast.Compare) and len(c.ops) == 1 and isinstance(c.ops[0], ast.Lt) and isinstance(c.left, ast.Call) and _callname(c.left) == "norm" \
+            and len(c.left.args) == 1 and not c.left.keywords and isinstance(c.comparators[0], ast.BinOp) and isinstance(c.comparators[0].op, ast.Mult) \
+            and isinstance(c.comparators[0].left, ast.Name) and c.comparators[0].left.id == "tol" and isinstance(c.comparators[0].right, ast.Call) \
+            and _callname(c.comparators[0].right) == "norm" and len(c.comparators[0].right.args) == 1 and not c.comparators[0].right.keywords
+        if not ok_:
+            raise Untranslatable("stopping test is not `tl.norm(a) < tol * tl.norm(b)`")
+        return E.expr(c.left.args[0]), E.expr(c.comparators[0].right.args[0])
+    (a1, b1), (a2, b2) = norm_test(last.test.values[0]), norm_test(last.test.values[1])
+    A, B = rec["solve"]
+    dn = E.env["dual_var"]
+    hyp = "forall (UtM UtU x dual xs xn : mat) (m r c i k : nat), wfm r r UtU -> wfm m r UtM -> wfm m r x -> wfm m r dual -> wfm r m xs -> wfm m r xn ->\n  (c < m)%nat -> (i < r)%nat -> (k < r)%nat ->\n  "
+    tac = "unfold admm_rho; cbn [fdiv fmul fadd fsub Rops]; try (destruct (Nat.eqb _ _)); ring"
+    return ("From TLV Require Import Proofs.NnlsProofsAdmmLoop.\n"
+            "(* the two arguments of tl.solve *)\n"
+            f"Goal {hyp}Mget (admm_lhs Rops UtU r) i k = {A('i', 'k')}.\nProof. intros. rewrite admm_lhs_entry by assumption. {tac}. Qed.\n"
+            f"Goal {hyp}Mget (admm_rhs UtM UtU r x dual) i c = {B('i', 'c')}.\nProof. intros. rewrite (admm_rhs_entry UtM UtU m r) by assumption. {tac}. Qed.\n"
+            "(* the argument of proximal_operator, the new dual variable *)\n"
+            f"Goal {hyp}Mget (msub Rops (mtranspose Rops m xs) dual) c i = {rec['prox']('c', 'i')}.\nProof. intros. rewrite (admm_proxarg_entry m r) by assumption. {tac}. Qed.\n"
+            f"Goal {hyp}Mget (msub Rops (madd Rops dual xn) (mtranspose Rops m xs)) c i = {dn('c', 'i')}.\nProof. intros. rewrite (admm_dual_entry m r) by assumption. {tac}. Qed.\n"
+            "(* the stopping rule: norm(x - x_split^T) < tol norm(x) and norm(x - x_old) < tol norm(dual_var), on the new state *)\n"
+            f"Goal {hyp}Mget (msub Rops xn (mtranspose Rops m xs)) c i = {a1('c', 'i')} /\\ Mget xn c i = {b1('c', 'i')} /\\\n"
+            f"  Mget (msub Rops xn x) c i = {a2('c', 'i')} /\\ Mget (msub Rops (madd Rops dual xn) (mtranspose Rops m xs)) c i = {b2('c', 'i')}.\n"
+            f"Proof. intros. rewrite (admm_dual_entry m r), (admm_dres_entry m r xs xn), (msub_entry m r xn x) by assumption. repeat split; ({tac}). Qed.\n"
+            "(* the model's body / rule / loop are built from exactly these matrices *)\n"
+            "Goal forall (solve : mat -> mat -> mat) (prox : mat -> mat) (UtM UtU x dual : mat) (m r : nat),\n"
+            "  let xs := solve (admm_lhs Rops UtU r) (admm_rhs UtM UtU r x dual) in let x' := prox (msub Rops (mtranspose Rops m xs) dual) in\n"
+            "  admm_body Rops solve prox UtM UtU m r x dual = (x', xs, msub Rops (madd Rops dual x') (mtranspose Rops m xs)).\nProof. intros. reflexivity. Qed.\n"
+            "Goal forall (m : nat) (tol : R) (x_old x xs dual : mat),\n"
+            "  admm_stop Rops m tol x_old x xs dual = (norm_lt Rops tol (msub Rops x (mtranspose Rops m xs)) x && norm_lt Rops tol (msub Rops x x_old) dual).\nProof. intros. reflexivity. Qed.\n"
+            "Goal forall (solve : mat -> mat -> mat) (prox : mat -> mat) (UtM UtU : mat) (m r : nat) (tol : R) (f : nat) (x : mat) (xs : option mat) (dual : mat),\n"
+            "  admm_loop Rops solve prox UtM UtU m r tol (S f) x xs dual =\n"
+            "  let '(x', xs', d') := admm_body Rops solve prox UtM UtU m r x dual in\n"
+            "  if admm_stop Rops m tol x x' xs' d' then (x', Some xs', d') else admm_loop Rops solve prox UtM UtU m r tol f x' (Some xs') d'.\n"
+            "Proof. intros. reflexivity. Qed.\n")
+
+
 def ties(nnls_src, admm_src):
     """-> list of (name, goal text or None, reason)"""
     out = []
@@ -774,7 +921,8 @@ def ties(nnls_src, admm_src):
     for name, f, tree in (("hals_row_update", tie_hals_row, t1), ("hals_stop_rule", tie_hals_stop, t1), ("hals_cold_start", tie_hals_cold, t1),
                           ("fista_step", tie_fista_step, t1), ("fista_loop_step", tie_fista_loop, t1), ("aset_step", tie_aset_step, t1),
                           ("admm_none", tie_admm_none, t2), ("hals_error_nonzero_rows", tie_hals_err_nz, t1), ("fista_entry", tie_fista_entry, t1),
-                          ("admm_x_split", tie_admm_split, t2), ("aset_selection_termination", tie_aset_tests, t1)):
+                          ("admm_x_split", tie_admm_split, t2), ("aset_selection_termination", tie_aset_tests, t1),
+                          ("admm_loop_body_stop", tie_admm_loop, t2), ("fista_momentum", tie_fista_momentum, t1)):
         try:
             out.append((name, f(tree), None))
         except (Untranslatable, KeyError, IndexError, AttributeError, TypeError) as e:
